@@ -354,12 +354,31 @@ inline void safeClear(QDomDocument &doc, long depthHint)
     doc = QDomDocument();
 }
 
-inline Summary summarizeXml(const QByteArray &xml, QDomDocument *keep = nullptr)
+// Parses one serialized element. Most toXml() of stanzas and of sub-elements do not declare a namespace of their own because in
+// the library's real output they are always embedded in a parent (the stream: jabber:client and xmlns:stream declared;
+// <authenticate xmlns='urn:xmpp:sasl:2'> for <user-agent/>, ...). When the output's root ends up without a namespace, the output
+// is therefore parsed as the child of a context element that declares the stream prefix and, when ctxNs is not empty, carries
+// ctxNs (the namespace the input element had) as default namespace. *rootOut receives the element.
+inline Summary summarizeXml(const QByteArray &xml, const QString &ctxNs, QDomDocument *keep = nullptr, QDomElement *rootOut = nullptr)
 {
     QDomDocument doc;
     Summary s;
     if (!doc.setContent(xml, true) || doc.documentElement().isNull()) return s;
-    s = summarizeElement(doc.documentElement());
+    QDomElement root = doc.documentElement();
+    if (root.namespaceURI().isEmpty()) {
+        // (Qt 5.15's QDom accepts an unbound prefix such as <stream:features> and leaves it without a namespace.)
+        QByteArray wrapped = "<verif-ctx xmlns:stream=\"http://etherx.jabber.org/streams\"";
+        if (!ctxNs.isEmpty() && ctxNs != u"http://etherx.jabber.org/streams") { wrapped += " xmlns=\""; escText(wrapped, ctxNs, true); wrapped += "\""; }
+        wrapped += ">" + xml + "</verif-ctx>";
+        QDomDocument doc2;
+        if (doc2.setContent(wrapped, true) && !doc2.documentElement().firstChildElement().isNull()) {
+            safeClear(doc, 0);
+            doc = doc2;
+            root = doc.documentElement().firstChildElement();
+        }
+    }
+    s = summarizeElement(root);
+    if (rootOut) *rootOut = root;
     if (keep) *keep = doc;
     else safeClear(doc, s.maxDepth);
     return s;
